@@ -73,27 +73,37 @@ theorem findLongG_attached (fs : PFlagsG) (hd : DelimFree fs) (hn : NamesDistinc
     have h1 : (Str.cutChar g.delim (f.name ++ f.delim :: v)).1 = g.name := by simpa using hp
     exact hn g hg f hf (cut_claims_name fs hd f g hf hg v h1)
 
-/-- the same search on carapace's side (`lookupPosixLonghandArg` visits the same flags) -/
+/-- the same search on carapace's side (`lookupPosixLonghandArg` visits the flags of mode Default) -/
 theorem find_toDefG (fs : PFlagsG) (body : Str) :
-    (fs.map PFlagG.toDefG).find? (fun f => (Str.cutChar f.delim body).1 == f.name) =
-      (findLongG fs body).map PFlagG.toDefG := by
-  unfold findLongG
+    (fs.map PFlagG.toDefG).find? (fun f => f.mode == 0 && (Str.cutChar f.delim body).1 == f.name) =
+      (fs.find? (fun f => f.mode == 0 && (Str.cutChar f.delim body).1 == f.name)).map PFlagG.toDefG := by
   induction fs with
   | nil => rfl
   | cons a l ih =>
     simp only [List.map_cons, List.find?]
     have e1 : (a.toDefG).delim = a.delim := rfl
     have e2 : (a.toDefG).name = a.name := rfl
-    rw [e1, e2]
-    cases hq : ((Str.cutChar a.delim body).1 == a.name) with
+    have e3 : (a.toDefG).mode = a.mode := rfl
+    rw [e1, e2, e3]
+    cases hq : (a.mode == 0 && (Str.cutChar a.delim body).1 == a.name) with
     | true => simp
     | false => simpa using ih
+
+theorem findLongModeG_attached (fs : PFlagsG) (hd : DelimFree fs) (hn : NamesDistinct fs) (f : PFlagG) (hf : f ∈ fs)
+    (hm : f.mode = 0) (v : Str) :
+    fs.find? (fun g => g.mode == 0 && (Str.cutChar g.delim (f.name ++ f.delim :: v)).1 == g.name) = some f := by
+  apply find_unique _ fs f hf
+  · rw [Str.cutChar_append f.delim f.name v (hd f hf f hf)]; simp [hm]
+  · intro g hg hp
+    have h1 : (Str.cutChar g.delim (f.name ++ f.delim :: v)).1 = g.name := by
+      simp only [Bool.and_eq_true, beq_iff_eq] at hp; exact hp.2
+    exact hn g hg f hf (cut_claims_name fs hd f g hf hg v h1)
 
 /-- **C01, custom delimiter.** `--name<d>value`: carapace resolves the word to flag `name` with prefix
     `--name<d>` and argument `value` (so the flag's completion is offered, prefixed), and the parser
     gives `value` to that flag and consumes nothing else. -/
 theorem C01_fork_long_attached (fs : PFlagsG) (hd : DelimFree fs) (hn : NamesDistinct fs) (f : PFlagG) (hf : f ∈ fs)
-    (c : Char) (n : Str) (hname : f.name = c :: n) (hc : c ≠ '-' ∧ c ≠ '=') (v : Str) (hv : valueOkG f v = true) (rest : List Str) (wl : Bool) :
+    (hm : f.mode = 0) (c : Char) (n : Str) (hname : f.name = c :: n) (hc : c ≠ '-' ∧ c ≠ '=') (v : Str) (hv : valueOkG f v = true) (rest : List Str) (wl : Bool) :
     lookupArgG (fs.map PFlagG.toDefG) ('-' :: '-' :: (f.name ++ f.delim :: v)) =
         some ⟨f.toDefG, "--".toList ++ f.name ++ [f.delim], [v]⟩ ∧
     parseLongG fs wl (f.name ++ f.delim :: v) rest = .ok (some (f.name, v), 0) := by
@@ -102,7 +112,7 @@ theorem C01_fork_long_attached (fs : PFlagsG) (hd : DelimFree fs) (hn : NamesDis
   constructor
   · show lookupPosixLongG _ (f.name ++ f.delim :: v) = _
     unfold lookupPosixLongG
-    rw [find_toDefG, hfind]
+    rw [find_toDefG, findLongModeG_attached fs hd hn f hf hm v]
     have e1 : (f.toDefG).delim = f.delim := rfl
     simp only [Option.map_some, e1, hcut]
   · unfold parseLongG
@@ -112,7 +122,8 @@ theorem C01_fork_long_attached (fs : PFlagsG) (hd : DelimFree fs) (hn : NamesDis
     simp only [h1, if_false]
     simp only [List.cons_append] at hfind hcut
     rw [hfind]
-    simp only [hcut, hv, if_true]
+    have hm1 : (f.mode == 1) = false := by rw [hm]; rfl
+    simp only [hm1, Bool.false_eq_true, if_false, hcut, hv, if_true]
     rw [hname]
 
 /-! ### how many words a flag with `Nargs` takes -/
@@ -284,7 +295,7 @@ theorem lookupPosixShortG_posix (fs : FlagSet) (pre s : Str) :
 theorem lookupPosixLongG_posix (fs : FlagSet) (body : Str) :
     lookupPosixLongG (fs.map embed) body = (lookupPosixLong fs body).map embedFound := by
   unfold lookupPosixLongG lookupPosixLong lookupLong
-  have hfind : ∀ l : FlagSet, (l.map embed).find? (fun f => (Str.cutChar f.delim body).1 == f.name) =
+  have hfind : ∀ l : FlagSet, (l.map embed).find? (fun f => f.mode == 0 && (Str.cutChar f.delim body).1 == f.name) =
       (l.find? (fun f => f.name == (Str.cutChar '=' body).1)).map embed := by
     intro l
     induction l with
@@ -293,7 +304,8 @@ theorem lookupPosixLongG_posix (fs : FlagSet) (body : Str) :
       simp only [List.map_cons, List.find?]
       have e1 : (embed a).delim = '=' := rfl
       have e2 : (embed a).name = a.name := rfl
-      rw [e1, e2]
+      have e3 : ((embed a).mode == 0) = true := rfl
+      rw [e1, e2, e3, Bool.true_and]
       have hsym : ((Str.cutChar '=' body).1 == a.name) = (a.name == (Str.cutChar '=' body).1) := by
         rw [Bool.eq_iff_iff]; simp only [beq_iff_eq]; exact eq_comm
       rw [hsym]
@@ -313,10 +325,18 @@ theorem lookupPosixLongG_posix (fs : FlagSet) (body : Str) :
     | none => simp [hf, embedFound]
     | some v => simp [hf, embedFound, e1]
 
+theorem isPosixG_embed (fs : FlagSet) : isPosixG (fs.map embed) = true := by
+  unfold isPosixG
+  simp only [List.all_map, List.all_eq_true]
+  intro f _
+  rfl
+
 /-- **the general lookup is the POSIX one on flag sets without fork features** -/
 theorem lookupArgG_posix (fs : FlagSet) (arg : Str) :
     lookupArgG (fs.map embed) arg = (lookupArg fs arg).map embedFound := by
   unfold lookupArgG lookupArg
+  rw [isPosixG_embed]
+  simp only [if_true]
   split <;> split
   all_goals (try simp_all)
   · exact lookupPosixLongG_posix fs _
@@ -413,7 +433,9 @@ theorem parseLongG_posix (fs : PFlags) (body : Str) (rest : List Str) :
         have e1 : (embedP f).delim = '=' := rfl
         have e2 : (embedP f).name = f.name := rfl
         have e3 : (embedP f).toPFlag = f := rfl
+        have e5 : ((embedP f).mode == 1) = false := rfl
         rw [e1, hcut]
+        simp only [e5, Bool.false_eq_true, if_false]
         cases v? with
         | some v =>
           simp only [valueOkG_embed, e2]
@@ -503,6 +525,12 @@ theorem parseShortG_posix (fs : PFlags) (h : NoEqShort fs) (cs : Str) (rest : Li
               rw [hv, ht]
               split <;> rfl
 
+theorem isPosixP_embed (fs : PFlags) : isPosixP (fs.map embedP) = true := by
+  unfold isPosixP
+  simp only [List.all_map, List.all_eq_true]
+  intro f _
+  rfl
+
 theorem parseArgsG_posix (fs : PFlags) (h : NoEqShort fs) (inter : Bool) (l : List Str) (b : Bool) (p : Parsed) :
     parseArgsG (fs.map embedP) false inter l (if b then 1 else 0) p = parseArgs fs inter l b p := by
   induction l generalizing b p with
@@ -528,7 +556,7 @@ theorem parseArgsG_posix (fs : PFlags) (h : NoEqShort fs) (inter : Bool) (l : Li
           simp only [liftL, Option.toList]
           exact ih took _
       | short cs =>
-        simp only
+        simp only [isPosixP_embed, if_true]
         rw [parseShortG_posix fs h]
         cases parseShort fs cs rest.head? with
         | error e => rfl
